@@ -62,7 +62,7 @@ def keys(repo, ev, pid):
 
 def suite(scr, full):
     skip = OFFLINE_FAIL if full else OFFLINE_FAIL + "|Test_ParallelPool"
-    return sh("unshare -n sh -c 'ip link set lo up; go test -vet=off -count=1 -timeout 300s -skip \"^(%s)$\" ./...'" % skip,
+    return sh("unshare -n sh -c 'ip link set lo up; go test -vet=off -count=1 -failfast -timeout 300s -skip \"^(%s)$\" ./...'" % skip,
               cwd=scr, timeout=400)
 
 
